@@ -79,6 +79,8 @@ class NickAuth(callbacks.Plugin):
             except KeyError:
                 irc.error(_('This nick is already used by someone on this '
                     'network.'), Raise=True)
+            except ValueError as e:
+                irc.error(str(e), Raise=True)
             irc.replySuccess()
         add = wrap(add, [optional('networkIrc'),
                          optional('otherUser'),
